@@ -8,7 +8,7 @@ from ..valgen import Gen, copy_value
 from ..condgen import CondGen
 from ..rulegen import RuleGen
 from ..ruleterms import RuleT, obs_rule_test, Tags
-from ..pathterms import PathT, Prim, ListT
+from ..pathterms import PathT, Prim, ListT, MapT, MolT, lit, cnd
 from ..terms import Leaf
 
 PROP = "C05"
@@ -55,6 +55,12 @@ CORPUS = [
     (RuleT(PathT([Prim("sizes"), ListT()]), Leaf("Value", "has_factor", [-2]), []), {"sizes": [8, "%c", 6]}),     # "%c" % -2: OverflowError
     (RuleT(PathT([Prim("n")]), Leaf("Value", "factor_of", ["%c"]), []), {"n": -7}),
     (RuleT(PathT([Prim("sizes"), ListT()]), Leaf("Value", "has_factor", [0]), []), {"sizes": [8, 0, "%z"]}),
+    # ONE map-or-list part with key, index and value conditions meeting a mapping and a list (in both orders)
+    (RuleT(PathT([MapT(), MolT(key=lit("a"), index=lit(1), value=cnd(Leaf("Value", "greater_than", [0])))]), Leaf("Value", "less_than", [3]), []),
+     {"p": {"a": 1, "b": 5}, "q": [1, 5, 7]}),
+    (RuleT(PathT([ListT(), MolT(key=cnd(Leaf("Key", "in_", [["a", "b"]])), index=cnd(Leaf("Index", "less_than", [2])),
+                                 value=cnd(Leaf("Value", "truthy", [])))]), Leaf("Value", "equal_to", [5]), []),
+     [[0, 5, 5], {"a": 5, "b": 0, "c": 5}, [5]]),
 ]
 
 
